@@ -662,7 +662,8 @@ Definition out_eqb (m o : out) : bool :=
 
 (** The environment of the harness's runs: a draw target of fixed width [W]; bars without a
     length whose position stays 0, so the fraction is 0 and a bar consists of background cells
-    only (state.rs:286-295, style.rs:193-220) and the numeric keys are the constants [nums];
+    only (state.rs:286-295, style.rs:193-220) and the numeric keys are the constants [nums]
+    except where [pernum] says otherwise;
     measure_text_width = sum of the characters' widths ([wt]: the characters whose width is
     not 1) outside `ESC ... letter` sequences (the sequences console::Style writes). *)
 Fixpoint lookup_or {A} (k : N) (m : list (N * A)) (d : A) : A :=
@@ -678,10 +679,23 @@ Fixpoint cols_chk (wt : list (N * N)) (esc : bool) (s : text) : N :=
               else if c =? 27 then cols_chk wt true r
               else lookup_or c wt 1 + cols_chk wt false r
   end.
-Definition chk_env (W : N) (wt : list (N * N)) (nums : list (N * text)) : env :=
-  mkenv (cols_chk wt false) (fun _ => W) (fun _ id _ => lookup_or id nums []) (fun _ n => (0, None, n)).
+(* texts of numeric keys that are not constant over a history: (rendering, key, width) -> text
+   ({per_sec}: its width is a precision, and a finished bar computes it differently,
+   state.rs:330-336) *)
+Fixpoint lookup_draw (d id : N) (w : option N) (m : list (N * N * option N * text)) : option text :=
+  match m with
+  | [] => None
+  | (d', id', w', t) :: r =>
+      if (d =? d') && (id =? id') && option_eqb N.eqb w w' then Some t else lookup_draw d id w r
+  end.
+Definition chk_env (W : N) (wt : list (N * N)) (nums : list (N * text))
+                   (pernum : list (N * N * option N * text)) : env :=
+  mkenv (cols_chk wt false) (fun _ => W)
+        (fun d id w => match lookup_draw d id w pernum with Some t => t | None => lookup_or id nums [] end)
+        (fun _ n => (0, None, n)).
 
-(* terminal width, width table, numeric-key table, a history, what was observed after each operation *)
-Definition c16_check (c : N * list (N * N) * list (N * text) * list op * list out) : bool :=
-  let '(W, wt, nums, ops, obs) := c in
-  list_eqb out_eqb (snd (run (chk_env W wt nums) bar_init ops)) obs.
+(* terminal width, width table, numeric-key tables, a history, what was observed after each operation *)
+Definition c16_check (c : N * list (N * N) * list (N * text) * list (N * N * option N * text)
+                          * list op * list out) : bool :=
+  let '(W, wt, nums, pernum, ops, obs) := c in
+  list_eqb out_eqb (snd (run (chk_env W wt nums pernum) bar_init ops)) obs.
